@@ -41,6 +41,7 @@ func run(c *vf.Ctx) {
 		"distinct = distinct (stream, segmentation, cut, end kind) scripts executed against Receive, distinct (length, content) for Send")
 	c.Assume("net.Conn contract: Read returns 1..len(p) bytes of the stream in order or an error; Write takes the whole buffer; the scripted conn never blocks, so a Receive that waits for more data than the stream holds gets the end-of-stream error")
 	c.Assume("network/netbios/session.go only defines the session message type constants and smb_v10/transport.NewTransport(\"nbt\") returns the same *nbt.NBTTransport; neither adds framing of its own (checked: the factory result is exercised through the Transport interface)")
+	c.Set("how_the_transport_gets_its_connection", connectMode)
 	t0 := time.Now()
 	sendLattice(c)
 	c.Set("phase_send_s", time.Since(t0).Seconds())
@@ -146,8 +147,8 @@ func inject(t *nbt.NBTTransport, conn net.Conn) error {
 
 func newTransport(c *vf.Ctx, conn net.Conn) *nbt.NBTTransport {
 	t := nbt.NewNBTTransport()
-	if err := inject(t, conn); err != nil {
-		c.Fatalf("cannot inject the scripted conn: %v", err)
+	if err := attach(t, conn); err != nil {
+		c.Fatalf("cannot give the transport its scripted connection: %v", err)
 	}
 	if !t.IsConnected() {
 		c.Fatalf("after injection IsConnected() is false")
@@ -263,7 +264,7 @@ func sendLattice(c *vf.Ctx) {
 		if i%2 == 1 && isNBT {
 			// exercise the same code through the smb_v10 Transport interface
 			f := transport.NewTransport("nbt")
-			if err := inject(f.(*nbt.NBTTransport), conn); err != nil {
+			if err := attach(f.(*nbt.NBTTransport), conn); err != nil {
 				c.Fatalf("%v", err)
 			}
 			snd = f
@@ -338,6 +339,59 @@ func sendLattice(c *vf.Ctx) {
 				c.Check("C11/send/sequence-of-sends-writes-concatenated-frames", bytes.Equal(W, want), func() string {
 					return fmt.Sprintf("Send x3 with lengths %d,%d,%d wrote %x, want %x", a, b, d, W, want)
 				})
+			}
+		}
+	}
+	// the same with a REFUSED send anywhere in the sequence: it must leave nothing behind (no byte on the
+	// wire now, none in front of a later frame)
+	over := make([]byte, 0x20000)
+	alpha := []int{0, 1, 2, -1} // -1 = the oversize payload
+	for a := range alpha {
+		for b := range alpha {
+			for d := range alpha {
+				for e := range alpha {
+					seq := []int{alpha[a], alpha[b], alpha[d], alpha[e]}
+					nOver := 0
+					for _, L := range seq {
+						if L < 0 {
+							nOver++
+						}
+					}
+					if nOver == 0 {
+						continue
+					}
+					conn := &scriptConn{}
+					t := newTransport(c, conn)
+					var want []byte
+					refusedOK := true
+					pan := ""
+					for i, L := range seq {
+						var p []byte
+						if L < 0 {
+							p = over
+						} else {
+							p = content(L, byte(0x40+i), 0)
+							want = append(want, frame(p)...)
+						}
+						var err error
+						if pn, msg, where := vf.Try(func() { _, err = t.Send(p) }); pn {
+							pan = msg + " at " + where
+							break
+						}
+						if L < 0 && err == nil {
+							refusedOK = false
+						}
+					}
+					c.Case([]byte("send4"), []byte{byte(a), byte(b), byte(d), byte(e)})
+					if pan != "" {
+						c.Fail("C11/send/no-panic", fmt.Sprintf("Send sequence %v (-1 = 0x20000 bytes) panicked: %s", seq, pan))
+						continue
+					}
+					W := conn.written()
+					c.Check("C11/send/sequence-with-refused-sends-writes-exactly-the-accepted-frames", refusedOK && bytes.Equal(W, want), func() string {
+						return fmt.Sprintf("Send x4 with lengths %v (-1 = 0x20000 bytes, must be refused; refused=%v) wrote %x, want %x", seq, refusedOK, W, want)
+					})
+				}
 			}
 		}
 	}
@@ -532,8 +586,8 @@ func reconnect(c *vf.Ctx) {
 								vf.Try(func() { t.Close() })
 							}
 							cb := &scriptConn{stream: B.bytes}
-							if err := inject(t, cb); err != nil {
-								c.Fatalf("inject: %v", err)
+							if err := attach(t, cb); err != nil {
+								c.Fatalf("second connection: %v", err)
 							}
 							for i := 0; i <= len(bl); i++ {
 								var got []byte
